@@ -483,6 +483,17 @@ def reregister_case(rng, name, nbpus=8):
     return lines
 
 
+def nocpukinds_case(rng, name):
+    """topology loaded with HWLOC_TOPOLOGY_FLAG_NO_CPUKINDS (kinds from the OS / XML ignored): the kinds the
+    application registers obey the same clauses through restrict (any flags), refresh, dup, adopt; an XML reload drops them"""
+    if rng.random() < 0.5:
+        c = numa_case(rng, name)
+    else:
+        c = random_case(rng, name, nbpus=rng.choice([4, 8, 16]), maxops=10, p_clean_after_restrict=0.3)
+    c[0] = "flag" + c[0]
+    return c
+
+
 def malformed_case(rng, name, nbpus=8):
     lines = ["case %s %d" % (name, nbpus)]
     lines.append(reg_line(BS(rng.getrandbits(nbpus) | 1), 1, 0, [("a", "1")]))
@@ -511,7 +522,7 @@ def split_cases(text):
     out, cur = {}, None
     order = []
     for l in text.split("\n"):
-        if l.startswith("case "):
+        if l.startswith("case ") or l.startswith("flagcase "):
             cur = l.split()[1]
             out[cur] = []
             order.append(cur)
@@ -619,6 +630,7 @@ def spec_check(script, transcript, stats=None):
     env = None
     prev = steps[0][2]
     loaded = script[0].startswith("caseroot")
+    nokinds = script[0].startswith("flagcase")   # HWLOC_TOPOLOGY_FLAG_NO_CPUKINDS: only the application's kinds exist
     if prev is None:
         return [("initial-state", "no state dump after loading")]
     if loaded:
@@ -767,6 +779,11 @@ def spec_check(script, transcript, stats=None):
                 bad.append((op, "%s: failed: %s" % (where, res)))
             if op in ("xml", "rank"):
                 pending_rank = False
+            if op == "xml" and nokinds and rc == 0:
+                # the reloaded topology ignores the kinds found in the XML
+                regs = []
+                if d.nr != 0:
+                    bad.append(("xml-nocpukinds", "%s: kinds imported from XML although HWLOC_TOPOLOGY_FLAG_NO_CPUKINDS is set" % where))
             if op in ("dup", "xml"):
                 adopted = False
             if op == "adopt":
@@ -776,7 +793,7 @@ def spec_check(script, transcript, stats=None):
         # unchanged state where the property says so
         if op == "restrict" and changed and d.nr != prev.nr:
             pending_rank = False
-        if not changed or op in ("dup", "xml", "adopt"):
+        if not changed or (op in ("dup", "xml", "adopt") and not (op == "xml" and nokinds)):
             same = [(k[0], k[2]) for k in d.kinds] == [(k[0], k[2]) for k in prev.kinds]
             if op == "xml" and not pending_rank and not was_pending:
                 # reload re-ranks: same kinds, same order unless ranking is impossible to compare
